@@ -30,6 +30,8 @@ def F_STOPPED : Nat := Gen.URCU_CALL_RCU_STOPPED
 def F_PAUSE : Nat := Gen.URCU_CALL_RCU_PAUSE
 def F_PAUSED : Nat := Gen.URCU_CALL_RCU_PAUSED
 def ADAPT : Nat := Gen.WFCQ_ADAPT_ATTEMPTS
+/-- callback ids of the model: user callback `cbN` ↦ N, barrier work item `workJ` ↦ WORK0 + J -/
+def WORK0 : Nat := 1000000
 
 structure G where
   c : Cfg := { n := NT, ncpu := 4 }
@@ -702,7 +704,8 @@ partial def barrier (t : Nat) : M Unit := do
         let wn := e.arg 0
         modify fun g => { g with workOf := (wn, (b, h)) :: g.workOf }
         let g ← P.get
-        lab (.bEnq (mt g t))
+        let wid ← num (wn.drop 4).toString
+        lab (.bEnq (mt g t) (WORK0 + wid))
         callRcuInner t h wn
         cover "barrier_marker_enqueued"
         enqAll
@@ -749,7 +752,9 @@ def barrierComplete (t h : Nat) (wn : String) : M Unit := do
   let r ← rmwM t "SUBR" s!"{cn}.count" 1
   -- the callback is now running: the model must have exactly this marker at the head of the batch
   labB (.hRunBegin h)
-  check fun g => if g.s.base.cur h != some (.mark b h') then some s!"invokes marker of barrier {b} queued on {crdName h'}, model runs {repr (g.s.base.cur h)}" else none
+  let wid ← num (wn.drop 4).toString
+  check fun g => if g.s.base.cur h != some (WORK0 + wid) || g.s.base.mark (WORK0 + wid) != some (b, h') then
+    some s!"invokes marker {wn} of barrier {b} queued on {crdName h'}, model runs {repr (g.s.base.cur h)}" else none
   lab (.mSub h)
   check fun g => if g.s.cnt b != r then some s!"{cn}.count = {r}, model {g.s.cnt b}" else none
   if r == 0 then do
@@ -1002,7 +1007,7 @@ partial def helperThread (fl : Flav) (t h : Nat) : M Unit := do
       if s!"&cb{e.arg 0}" != node then P.fail s!"callback of node {node} reports rcu_head cb{e.arg 0}"
       let id ← num (e.arg 0)
       labB (.hRunBegin h)
-      check fun g => if g.s.base.cur h != some (.user id) then some s!"invokes cb{id}, model runs {repr (g.s.base.cur h)}" else none
+      check fun g => if g.s.base.cur h != some id then some s!"invokes cb{id}, model runs {repr (g.s.base.cur h)}" else none
       let _ ← opsUntil fl t (fun e => e.op == "INVOKED" && e.args == [toString id])
       labB (.hRunEnd h)
       cover "callback_invoked"
@@ -1032,8 +1037,7 @@ partial def helperThread (fl : Flav) (t h : Nat) : M Unit := do
       check fun g => if (g.s.base.queue h).isEmpty then some s!"splice took {hd}..{tl} but the model queue is empty" else none
       check fun g =>
         let want := match (g.s.base.queue h).getLast? with
-          | some (.user id) => s!"&cb{id}"
-          | some (.mark b h') => match g.workOf.find? (·.2 == (b, h')) with | some (w, _) => s!"&{w}" | none => "?"
+          | some id => if id ≥ WORK0 then s!"&work{id - WORK0}" else s!"&cb{id}"
           | none => "?"
         if want != tl then some s!"splice: last node {tl}, model queue ends with {want}" else none
       labB (.hSplice h)
